@@ -985,6 +985,8 @@ def gen_project(seed, idx, family=None):
         ln("  end process ", e(i_pr), ";")
         ln("end architecture ", e(IA), ";")
 
+    gen_sig_section(P, L1, seed, idx, family)
+
     texts = P.render()
     # drop entities that were never written
     ents = [x for x in P.ents if x.occs and all(o.file is not None for o in x.occs)]
@@ -1008,3 +1010,160 @@ def split_decl_body_param(P, pe):
     first.ent = twin
     twin.occs.append(first)
     return twin
+
+
+# ---------------------------------------------------------------------- names selected by a SIGNATURE
+SIG_F = [("(x : integer)", "integer", "integer return integer", "vi", "vi", "x + 1"),
+         ("(x : bit)", "integer", "bit return integer", "vt", "vi", "bit'pos(x)"),
+         ("(x : boolean)", "boolean", "boolean return boolean", "vb", "vb", "not x")]
+SIG_P = [("(x : integer)", "integer", "vi"),
+         ("(x : bit)", "bit", "vt"),
+         ("(x : integer; y : bit)", "integer, bit", "vi, vt")]
+
+
+def gen_sig_section(P, L1, seed, idx, family):
+    """Last file(s) of every project: subprograms and enumeration literals with 1, 2 or 3 overloads in scope, named
+    with a signature in attribute specifications (`attribute a of f[integer return integer] : function is 1;`,
+    subprograms only) and in alias declarations (`alias g is f[bit return integer];`, `alias l is lit[return t];`),
+    in a package (declaration + body), an architecture declarative part, a process declarative part and a subprogram
+    declarative part.  Own random stream and written after every other file, so that the rest of the project is what
+    it was before this section existed."""
+    R = random.Random("c09sig:%s:%s:%s" % (seed, idx, family))
+    first_ent = len(P.ents)
+    save_r = P.R
+    P.R = R
+    d, r, e, ln = P.d, P.r, P.e, P.ln
+    kcount = [0]
+
+    def sig(text):
+        return R.choice(["", " "]) + "[" + text + "]"
+
+    def sub_body(ind, x, kind, v):
+        if kind == "function":
+            ln(ind, "function ", d(x), " ", v[0], " return ", v[1], " is")
+            ln(ind, "begin")
+            ln(ind, "  return ", v[5], ";")
+        else:
+            ln(ind, "procedure ", d(x), " ", v[0], " is")
+            ln(ind, "begin")
+            ln(ind, "  null;")
+        ln(ind, "end ", kind, *([" ", e(x)] if R.random() < 0.8 else []), ";")
+
+    def family_decls(ind, attr, split):
+        nf, npr, nl = R.randrange(1, 4), R.randrange(1, 4), R.randrange(1, 4)
+        fn, pn, lnm = P.fresh_name("sgf"), P.fresh_name("sgp"), P.fresh_name("sgl")
+        fs = [(P.ent("sgf", "function", name=fn), SIG_F[k]) for k in R.sample(range(3), nf)]
+        ps = [(P.ent("sgp", "procedure", name=pn), SIG_P[k]) for k in R.sample(range(3), npr)]
+        tys = [P.ent("sgt", "type") for _ in range(nl)]
+        lits = [P.ent("sgl", "enum_literal", name=lnm) for _ in range(nl)]
+        ulits = [P.ent("sgu", "enum_literal") for _ in range(nl)]
+        fam = {"fs": fs, "ps": ps, "fal": [], "pal": [], "split": split}
+        for t, l, u in zip(tys, lits, ulits):
+            a, b = (l, u) if R.random() < 0.5 else (u, l)
+            ln(ind, "type ", d(t), " is (", d(a), ", ", d(b), ");")
+        for x, v in fs:
+            if split:
+                ln(ind, "function ", d(x), " ", v[0], " return ", v[1], ";")
+            else:
+                sub_body(ind, x, "function", v)
+        for x, v in ps:
+            if split:
+                ln(ind, "procedure ", d(x), " ", v[0], ";")
+            else:
+                sub_body(ind, x, "procedure", v)
+        # attribute specifications: entity designator with a signature (optional when there is one overload only)
+        specs = [(x, v[2], "function") for x, v in fs] + [(x, v[1], "procedure") for x, v in ps]
+        R.shuffle(specs)
+        n = 0
+        for x, sg, cls in specs:
+            n += 1
+            many = len(fs if cls == "function" else ps) > 1
+            ln(ind, "attribute ", r(attr), " of ", r(x, "attr_spec_sig"), *([sig(sg)] if many or R.random() < 0.7 else []),
+               " : ", cls, " is ", str(n), ";")
+        # alias declarations with a signature
+        for x, v in fs:
+            if R.random() < 0.7:
+                a = P.ent("sga", "alias")
+                ln(ind, "alias ", d(a), " is ", r(x), sig(v[2]), ";")
+                fam["fal"].append((a, v))
+        for x, v in ps:
+            if R.random() < 0.7:
+                a = P.ent("sga", "alias")
+                ln(ind, "alias ", d(a), " is ", r(x), sig(v[1]), ";")
+                fam["pal"].append((a, v))
+        for t, l in zip(tys, lits):
+            kcount[0] += 1
+            ln(ind, "constant sgk", str(kcount[0]), " : ", r(t), " := ", r(l), ";")
+            if R.random() < 0.7:
+                a = P.ent("sga", "alias")
+                ln(ind, "alias ", d(a), " is ", r(l), R.choice(["", " "]), "[return ", r(t), "];")
+                kcount[0] += 1
+                ln(ind, "constant sgk", str(kcount[0]), " : ", r(t), " := ", r(a), ";")
+        for x_ in [x for x, _ in fs + ps] + lits + [a for a, _ in fam["fal"] + fam["pal"]]:
+            x_.sigfam = True
+        return fam
+
+    def variables(ind):
+        ln(ind, "variable vi : integer := 0;")
+        ln(ind, "variable vt : bit := '0';")
+        ln(ind, "variable vb : boolean := false;")
+
+    def calls(ind, fam):
+        for x, v in fam["fs"] + fam["fal"]:
+            ln(ind, v[4], " := ", r(x), R.choice(["", " "]), "(", v[3], ");")
+        for x, v in fam["ps"] + fam["pal"]:
+            ln(ind, r(x), R.choice(["", " "]), "(", v[2], ");")
+
+    SPK = P.ent("sgpk", "package")
+    at1 = P.ent("sgat", "attribute")
+    at2 = P.ent("sgat", "attribute")
+    drv = P.ent("sgdrv", "procedure")
+    SE = P.ent("sgent", "entity")
+    SA = P.ent("sgarch", "architecture")
+    outer = P.ent("sgouter", "procedure")
+    pl = P.ent("sgproc", "label")
+    P.file("sig_pk.vhd", L1)
+    ln("package ", d(SPK), " is")
+    ln("  attribute ", d(at1), " : integer;")
+    fk = family_decls("  ", at1, True)
+    ln("end package ", e(SPK), ";")
+    if R.random() < 0.4:
+        P.file("sig_pk_body.vhd", L1)
+    ln("package body ", r(SPK), " is")
+    for x, v in fk["fs"]:
+        sub_body("  ", x, "function", v)
+    for x, v in fk["ps"]:
+        sub_body("  ", x, "procedure", v)
+    ln("  procedure ", d(drv), " is")
+    variables("    ")
+    ln("  begin")
+    calls("    ", fk)
+    ln("  end procedure ", e(drv), ";")
+    ln("end package body ", e(SPK), ";")
+    if R.random() < 0.5:
+        P.file("sig_ent.vhd", L1)
+    ln("entity ", d(SE), " is")
+    ln("end entity ", e(SE), ";")
+    ln("architecture ", d(SA), " of ", r(SE), " is")
+    ln("  attribute ", d(at2), " : integer;")
+    fa = family_decls("  ", at2, False)
+    ln("  procedure ", d(outer), " is")
+    fsub = family_decls("    ", at2, False)
+    variables("    ")
+    ln("  begin")
+    calls("    ", fsub)
+    ln("  end procedure ", e(outer), ";")
+    ln("begin")
+    ln("  ", d(pl), " : process is")
+    fpr = family_decls("    ", at2, False)
+    variables("    ")
+    ln("  begin")
+    calls("    ", fpr)
+    calls("    ", fa)
+    ln("    ", r(outer), ";")
+    ln("    wait;")
+    ln("  end process ", e(pl), ";")
+    ln("end architecture ", e(SA), ";")
+    P.R = save_r
+    for x_ in P.ents[first_ent:]:
+        x_.sigsec = True
